@@ -560,6 +560,14 @@ def cmp_c07(rec, job, obs, gram):
 
 
 def grams_for(prop, tier, seed):
+    g = _grams_for(prop, tier, seed)
+    if prop in ("C01", "C02", "C03", "C04", "C05", "C07", "C09", "C10"):
+        have = {x["id"] for x in g}
+        g += [x for x in families.fam_trig(tier) if x["id"] not in have]
+    return g
+
+
+def _grams_for(prop, tier, seed):
     q = tier == "quick"
     F = families
     if prop in ("C01", "C02"):
